@@ -36,6 +36,9 @@ CONSTANTS MaxLen,      \* paths of length 1..MaxLen
           ShiftSet8,   \* |shift| values in eighths of a degree (both signs are tried)
           FixedGE,     \* TRUE: the repaired `>= 360` fold
           ScaleSizes,  \* lengths of the large arrays (at and across the block sizes 2^18, 2^19, 2^20)
+          WorldLen,    \* sessions of 1..WorldLen steps in one process
+          MemoKind,    \* mechanism of the world machine: "none" / "exact" refine the statement, "g6" / "alias" deviate
+          WorldScr,    \* values of the Scribble flag in the exported sessions
           DoExport
 
 VARIABLES kind, path, x, y, z
@@ -142,8 +145,48 @@ ScaleTheorems == kind = "scale" =>
     /\ BlockMap(Tok, big, z) = MapSeq(Tok, big)                                            \* a block loop is the same map
     /\ \A n \in ScaleSizes : n > 1000 /\ n < 2000000
 
-Next == Start \/ Step \/ PickFrame \/ PickOpt \/ PickScale \/ PickGC1 \/ PickRS1 \/ PickShift \/ PickCube \/ PickAnchor
-NextExport == Start \/ Step \/ PickFrame \/ PickOpt \/ PickGC1 \/ PickRS1 \/ PickCube \/ PickAnchor
+\* ---- world machine: sessions of calls in one process (kind = "world": path = the steps so far, x = the memo,
+\*      y = the log of calls made, each with whether it worked with the parameters it was given) -------------------
+\* Euler triples in units of 1e-7 degree: 41.2345 / 123.4567 / -77.25 degree and their twins in the 7th..9th digit
+WBase == << <<0, 412345000, 0>>, <<1234567000, 412345000, -772500000>> >>
+WTwins(t) == {[t EXCEPT ![c] = WTwin(t[c], n)] : c \in {k \in 1..3 : t[k] # 0}, n \in TwinDigits}
+WTriples == UNION {{WBase[i]} \cup WTwins(WBase[i]) : i \in DOMAIN WBase}
+RotCalls  == {[fn |-> "rotate", p |-> t] : t \in WTriples}
+ConvCalls == {[fn |-> "conv", p |-> <<s, b>>] : s \in Selectors, b \in {0}} \cup {[fn |-> "conv", p |-> <<s, 1>>] : s \in {t \in Selectors : IsEuler(t)}}
+\* the other entry point: caps centred at (200, 41.2345) and at its twin declination
+RandCalls == {[fn |-> "randcap", p |-> <<2000000000, d>>] : d \in {WBase[1][2], WTwin(WBase[1][2], 7)}}
+WorldSteps == {[c |-> c, undo |-> u, scr |-> s] : c \in RotCalls, u \in BOOLEAN, s \in BOOLEAN}
+              \cup {[c |-> c, undo |-> FALSE, scr |-> s] : c \in ConvCalls \cup RandCalls, s \in BOOLEAN}
+RECURSIVE RunCalls(_, _, _, _)
+RunCalls(mk, memo, calls, scr) ==
+    IF calls = <<>> THEN [memo |-> memo, log |-> <<>>]
+    ELSE LET c == Head(calls)  r == RunCalls(mk, WorldPut(mk, memo, c, scr), Tail(calls), scr)
+         IN [memo |-> r.memo, log |-> <<[c |-> c, ok |-> WorldOk(mk, memo, c)]>> \o r.log]
+WorldStep == /\ kind \in {"start", "world"} /\ kind' = "world" /\ z' = 0
+             /\ LET p == IF kind = "start" THEN <<>> ELSE path  m == IF kind = "start" THEN <<>> ELSE x
+                    lg == IF kind = "start" THEN <<>> ELSE y
+                IN /\ Len(p) < WorldLen
+                   /\ \E st \in WorldSteps : LET r == RunCalls(MemoKind, m, StepCalls(st), st.scr)
+                                             IN path' = p \o <<st>> /\ x' = r.memo /\ y' = lg \o r.log
+\* every call of every session works with the parameters it was given (= its outcome in a fresh world)
+WorldFresh == kind = "world" => \A k \in DOMAIN y : y[k].ok
+WorldTheorems == kind = "world" =>
+    /\ MemoKind \in MemoKinds
+    /\ \A k \in DOMAIN path : path[k] \in WorldSteps
+    /\ Len(path) = 1 =>
+          \* in a fresh world every call works with what it was given, whatever the mechanism
+          /\ \A mk \in MemoKinds : \A st \in WorldSteps : WorldOk(mk, <<>>, st.c)
+          \* the twins differ from their base, agree with it to six digits, and are degree-scale 32-bit values
+          /\ \A i \in DOMAIN WBase : \A t \in WTwins(WBase[i]) :
+                 /\ t # WBase[i] /\ [k \in 1..3 |-> G6(t[k])] = [k \in 1..3 |-> G6(WBase[i][k])]
+                 /\ \A k \in 1..3 : VAbs(t[k]) < 2000000000
+          /\ Cardinality(WTriples) = 14
+          /\ G6(412345400) = 412345000 /\ G6(-772500000) = -772500000 /\ WTwin(412345000, 7) = 412345400 /\ G6(1234567000) = 1234570000
+    \* one log entry per call made
+    /\ Len(y) >= Len(path) /\ Len(y) <= 3 * Len(path)
+
+Next == WorldStep \/ Start \/ Step \/ PickFrame \/ PickOpt \/ PickScale \/ PickGC1 \/ PickRS1 \/ PickShift \/ PickCube \/ PickAnchor
+NextExport == WorldStep \/ Start \/ Step \/ PickFrame \/ PickOpt \/ PickGC1 \/ PickRS1 \/ PickCube \/ PickAnchor
 Spec == Init /\ [][Next]_vars
 
 \* ---- theorems ------------------------------------------------------------------------------
@@ -264,5 +307,7 @@ Export == DoExport =>
     /\ kind = "gc1" => PrintT(<<"GCROW", ToJson(GCRow(x))>>)
     /\ kind = "rs1" => PrintT(<<"RSROW", ToJson(RSRow(x))>>)
     /\ kind = "cube" => PrintT(<<"CUBE", ToJson([phi |-> CubePhi(x), theta |-> CubeTheta(x), psi |-> CubePsi(x)])>>)
+    /\ (kind = "world" /\ \A k \in DOMAIN path : path[k].scr \in WorldScr) =>
+          PrintT(<<"WORLD", ToJson([steps |-> path, tol9 |-> WorldTol9, rottol9 |-> RotTol9])>>)
     /\ kind = "anchor" => PrintT(<<"ANCHOR", ToJson([sel |-> x, a |-> AnchorSeq(x)[y]])>>)
 =============================================================================
